@@ -61,7 +61,9 @@ S_ = slice(None)
 # items on the finite dimensions that are always exercised as views: lists between, before and after slices, with integers, on two and three block dimensions
 DESIGNED_VIEWS = [((3, 3, 2), (S_, [2, 0], S_)), ((3, 3, 2), (slice(1, None), [0, 1], slice(None, 1))), ((3, 3, 2), ([0, 1], S_, [1, 0])), ((3, 3, 2), (S_, [2, 0], 1)),
                   ((3, 3, 2), (1, S_, [0, 1])), ((3, 3, 2), ([2, 0], S_, S_)), ((3, 3, 2), (S_, S_, [1, 0])), ((2, 3), (S_, [2, 0])), ((2, 3), ([1, 0], S_)),
-                  ((3, 2, 3), (S_, [1], S_)), ((3, 2, 3), ([2, 0], 1, S_)), ((3, 2, 3), (slice(0, 3, 2), [1, 0], [0, 2]))]
+                  ((3, 2, 3), (S_, [1], S_)), ((3, 2, 3), ([2, 0], 1, S_)), ((3, 2, 3), (slice(0, 3, 2), [1, 0], [0, 2])),
+                  # block indices that are NumPy integers (what np.argwhere, np.nonzero, loops over arange hand out)
+                  ((3, 3, 2), (np.int64(1), np.intp(2), np.int64(0))), ((2, 3), (np.int64(1), np.int32(2))), ((3, 3, 2), (np.int64(1), S_, np.uint8(1))), ((2, 3), (np.int64(-1), 0))]
 
 def main(seed, ncases, driver, out):
     import subprocess
